@@ -40,7 +40,7 @@ def run(ck):
     ck.rule = ("one case = one fresh server + a seeded history of 40..120 ops over 1..3 storage indexes "
                "(sometimes sharing a prefix dir) x share numbers 0..3; distinct = distinct op history; "
                "non-trivial = history has an overlapping write, a close and an abort/timeout/disconnect")
-    ncases = 250 if ck.tier == "quick" else 12000
+    ncases = 150 if ck.tier == "quick" else 8000
     ck.assumptions.append("upload inactivity timeout is 30 min (BucketWriter); judged only when >1 s away from it")
 
     for ci in range(ncases):
